@@ -22,6 +22,24 @@ func jobsFor(prop, tier string) []Job {
 		return b
 	}
 	switch prop {
+	case "C01":
+		kvTreeJobs(prop, q, add)
+		u := pick(4, 5)
+		for _, k := range []string{"hashmap", "linkedhashmap"} {
+			add("kv", fmt.Sprintf("%s.u%d", k, u), u, map[string]string{"c": k}, map[string]int{"u": u})
+		}
+		for _, c := range []string{"nat", "rev", "coarse"} {
+			add("kv", fmt.Sprintf("treemap.fixed.%s.u%d", c, u+2), u, map[string]string{"c": "treemap", "cmp": c}, map[string]int{"u": u + 2})
+		}
+		bidiJobs(prop, q, add)
+	case "C02":
+		kvTreeJobs(prop, q, add)
+		bidiJobs(prop, q, add)
+	case "C07":
+		kvTreeJobs(prop, q, add)
+		bidiJobs(prop, q, add)
+	case "C10":
+		bidiJobs(prop, q, add)
 	case "C05":
 		n := pick(5, 7)
 		for _, k := range []string{"arraystack", "linkedliststack", "arrayqueue", "linkedlistqueue"} {
@@ -32,6 +50,23 @@ func jobsFor(prop, tier string) []Job {
 		}
 	}
 	return jobs
+}
+
+func bidiJobs(prop string, q bool, add func(kind, id string, w int, s map[string]string, p map[string]int)) {
+	u := 3
+	if !q {
+		u = 4
+	}
+	add("kv", fmt.Sprintf("hashbidimap.u%d", u), u, map[string]string{"c": "hashbidimap"}, map[string]int{"u": u})
+	for _, kc := range []string{"nat", "rev", "coarse"} {
+		for _, vc := range []string{"nat", "rev", "coarse"} {
+			uu := u
+			if kc == "coarse" || vc == "coarse" {
+				uu = u + 1 // coarse classes {1},{2,3},{4}: keep at least three classes
+			}
+			add("kv", fmt.Sprintf("treebidimap.%s.%s.u%d", kc, vc, uu), uu, map[string]string{"c": "treebidimap", "cmp": kc, "vcmp": vc}, map[string]int{"u": uu})
+		}
+	}
 }
 
 func assumptionsFor(prop string) []string {
